@@ -58,13 +58,15 @@ Inductive xdesc :=
 | DArbitrary (z : list (question * list rr))      (* zone records grouped by (lower-cased owner, type, class) *)
 | DTtl (f mn mx : N)
 | DForward (u : N)
-| DDropResp.
+| DDropResp
+| DFallback (primary secondary : N) (standby : bool).   (* Args: sequence names, always_standby *)
 
 Inductive wdesc :=
 | DCache (inst : N)
 | DRedirect (t : list (bytes * bytes))            (* rules "pattern target" *)
 | DEcs (fwd send : bool) (preset : option addr) (m4 m6 : N)   (* Args as given to NewHandler *)
-| DFwdOpt (codes : list N).
+| DFwdOpt (codes : list N)
+| DDual (inst : N) (v6 : bool).                   (* prefer_ipv6 / prefer_ipv4 *)
 
 (** A scripted upstream reply: fails, or echoes id, opcode, RD and question
     with these flag bits (AA TC RA Z AD CD of [fl]), rcode, records (an empty
@@ -86,7 +88,15 @@ Inductive qobs :=
 Inductive case :=
 | CRun (xs : list xdesc) (ws : list wdesc) (scripts : list (list rtmpl))
        (prog : list tseq) (qs : list qobs)
-| CFun (op arg : N) (m out : msg) (aux : N).
+| CFun (op arg : N) (m out : msg) (aux : N)
+  (** Context.Copy(): a context is made from [q0] (and given the response
+      [pre]), copied, and then ONE of the two (the copy when [on_copy]) is
+      written to the way plugins do: options appended to RespOpt() and to the
+      query OPT, TTLs of R() rewritten in place, SetResponse([m2]). Observed:
+      the context before, and original and copy afterwards. *)
+| CCopy (q0 : msg) (pre : option msg) (on_copy : bool) (es_resp es_q : list eopt) (ttl : N) (m2 : option msg)
+        (before orig copy : cobs)
+with cobs := CObs (q : msg) (co : option opt) (r : option msg) (ro uo : option opt).
 
 (** * Model side *)
 
@@ -120,7 +130,7 @@ Fixpoint zone_search (z : list (question * list rr)) (qu : question) : list rr :
     else zone_search t qu
   end.
 
-Definition xplugin_of (d : xdesc) : xplugin :=
+Definition xplugin_of (reg : registry) (d : xdesc) : xplugin :=
   match d with
   | DHosts t => XHosts (fun name => match full_match (map (fun e => (fst (fst e), (snd (fst e), snd e))) t) name with
                                     | Some v => v | None => ([], []) end)
@@ -129,6 +139,11 @@ Definition xplugin_of (d : xdesc) : xplugin :=
   | DTtl f mn mx => XTtl f mn mx
   | DForward u => XForward u
   | DDropResp => XDropResp
+  | DFallback p s standby =>
+    match Sequence.lookup reg p, Sequence.lookup reg s with
+    | Some rp, Some rs => XFallback rp rs standby
+    | _, _ => XDropResp          (* the driver only names sequences it has built *)
+    end
   end.
 
 Definition wplugin_of (d : wdesc) : wplugin :=
@@ -141,6 +156,7 @@ Definition wplugin_of (d : wdesc) : wplugin :=
     | None => WFwdOpt []          (* the driver never configures an invalid mask *)
     end
   | DFwdOpt codes => WFwdOpt codes
+  | DDual i v6 => WDual i v6
   end.
 
 (** Matcher ids: 0 = has_resp, 100 / 101 = _true / _false, any other id m = "qtype m". *)
@@ -193,20 +209,41 @@ Definition jpacks (m : msg) : bool := (m_rcode m <? 16) || (0 <? count_opt (m_ex
 Definition jknown (xs : list xdesc) (ws : list wdesc) : known :=
   Known (fun _ => true) (fun e => e <? N.of_nat (length xs)) (fun w => w <? N.of_nat (length ws)).
 
-Definition build_prog (xs : list xdesc) (ws : list wdesc) (prog : list tseq) : option rules :=
+Definition build_prog (xs : list xdesc) (ws : list wdesc) (prog : list tseq) : option (registry * rules) :=
   match build_all (jknown xs ws) prog with
-  | inl ((_, rs) :: _) => Some rs
+  | inl ((n, rs) :: t) => Some ((n, rs) :: t, rs)
   | _ => None
   end.
 
-Definition jentry (xs : list xdesc) (ws : list wdesc) (scripts : list (list rtmpl)) (rs : rules) :
+(** fallback nests at most as deep as there are sequences *)
+Definition jdepth : nat := 6.
+
+Definition jentry (xs : list xdesc) (ws : list wdesc) (scripts : list (list rtmpl)) (reg : registry) (rs : rules) :
   state -> state * option N :=
   entry (ups_of scripts) jclock
-        (fun e => xplugin_of (nth (N.to_nat e) xs DDropResp))
+        (fun e => xplugin_of reg (nth (N.to_nat e) xs DDropResp))
         (fun w => wplugin_of (nth (N.to_nat w) ws (DFwdOpt [])))
-        matcher_of rs.
+        matcher_of jdepth rs.
+
+(** Programs with dual_selector or a standing-by fallback run sub-chains
+    concurrently: the order in which upstreams are reached is free. *)
+Definition concurrent (xs : list xdesc) (ws : list wdesc) : bool :=
+  existsb (fun d => match d with DFallback _ _ true => true | _ => false end) xs
+  || existsb (fun d => match d with DDual _ _ => true | _ => false end) ws.
 
 Definition seen_eqb (a b : N * msg) : bool := (fst a =? fst b) && msg_eqb (snd a) (snd b).
+
+Fixpoint remove_first (x : N * msg) (l : list (N * msg)) : option (list (N * msg)) :=
+  match l with
+  | [] => None
+  | y :: t => if seen_eqb x y then Some t
+              else match remove_first x t with Some t' => Some (y :: t') | None => None end
+  end.
+Fixpoint is_perm (a b : list (N * msg)) : bool :=
+  match a with
+  | [] => match b with [] => true | _ => false end
+  | x :: a' => match remove_first x b with Some b' => is_perm a' b' | None => false end
+  end.
 
 Definition chain_eqb (m : chain_result) (o : chain_obs) : bool :=
   match m, o with
@@ -227,20 +264,20 @@ Definition reply_agrees (udp : bool) (size : N) (model : option msg) (obs : opti
 
 Definition client_opt (q : msg) : option opt := find_opt (m_extra q).
 
-Fixpoint agree_queries (ent : state -> state * option N) (w : world) (qs : list qobs) : bool :=
+Fixpoint agree_queries (conc : bool) (ent : state -> state * option N) (w : world) (qs : list qobs) : bool :=
   match qs with
   | [] => true
   | QObs q udp ca seen chain reply rlen :: t =>
-    let w0 := World (w_store w) [] (w_next w) in
+    let w0 := clear_log w in
     let '(w1, r0) := handle jtruncate jpacks ent w0 q udp ca in
     let chain_ok :=
       if valid_query q then
         let '((c, _), err) := ent (new_context q udp ca, w0) in chain_eqb (chain_result_of c err) chain
       else match chain with ONone => true | _ => false end in
-    list_eqb seen_eqb (rev (w_log w1)) seen
+    (if conc then is_perm (w_log w1) seen else list_eqb seen_eqb (rev (w_log w1)) seen)
     && chain_ok
     && reply_agrees udp (valid_udp_size (client_opt q)) r0 reply rlen
-    && agree_queries ent w1 t
+    && agree_queries conc ent w1 t
   end.
 
 Definition b2N (b : bool) : N := if b then 1 else 0.
@@ -265,15 +302,45 @@ Definition fun_model (op arg : N) (m : msg) : msg * N :=
           b2N (match c_upstream_opt c with Some _ => true | None => false end))
   end.
 
+(** the Copy experiment in the model: the context before, and the written one *)
+Definition obs_of (c : ctx) : cobs :=
+  CObs (c_query c) (c_client_opt c) (c_resp c) (c_resp_opt c) (c_upstream_opt c).
+
+Definition cobs_eqb (a b : cobs) : bool :=
+  match a, b with
+  | CObs q1 co1 r1 ro1 uo1, CObs q2 co2 r2 ro2 uo2 =>
+    msg_eqb q1 q2 && option_eqb opt_eqb co1 co2 && option_eqb msg_eqb r1 r2
+    && option_eqb opt_eqb ro1 ro2 && option_eqb opt_eqb uo1 uo2
+  end.
+
+Definition copy_model (q0 : msg) (pre : option msg) (es_resp es_q : list eopt) (ttl : N) (m2 : option msg) : cobs * cobs :=
+  let c0 := new_context q0 false None in
+  let c1 := match pre with Some m => set_response c0 1 m | None => c0 end in
+  (* Copy() is the identity on everything observed; then the writes *)
+  let c2 := fst (ctx_copy (c1, empty_world)) in
+  let c3 := resp_add_opts c2 es_resp in
+  let c4 := match c_resp c3 with
+            | Some r => if 0 <? ttl then with_resp_inplace c3 (set_ttl ttl r) else c3
+            | None => c3
+            end in
+  let c5 := q_add_opts c4 es_q in
+  let c6 := match m2 with Some m => set_response c5 2 m | None => c5 end in
+  (obs_of c1, obs_of c6).
+
 Definition agree (c : case) : bool :=
   match c with
   | CRun xs ws scripts prog qs =>
     match build_prog xs ws prog with
-    | Some rs => agree_queries (jentry xs ws scripts rs) empty_world qs
+    | Some (reg, rs) => agree_queries (concurrent xs ws) (jentry xs ws scripts reg rs) empty_world qs
     | None => false
     end
   | CFun op arg m out aux =>
     let '(o, a) := fun_model op arg m in msg_eqb o out && (a =? aux)
+  | CCopy q0 pre on_copy es_resp es_q ttl m2 before orig copy =>
+    let '(b, t) := copy_model q0 pre es_resp es_q ttl m2 in
+    cobs_eqb b before
+    && cobs_eqb (if on_copy then b else t) orig
+    && cobs_eqb (if on_copy then t else b) copy
   end.
 
 (** * The property's own oracle for C15, on the observations alone *)
@@ -316,15 +383,30 @@ Definition upstream_msg_ok (ws : list wdesc) (q : msg) (m : msg) : bool :=
 Definition opts_upstream (scripts : list (list rtmpl)) : list eopt :=
   flat_map (flat_map (fun t => match t with RT _ _ _ _ _ _ (Some o) => o_opts o | _ => [] end)) scripts.
 
+(** The options of the reply the scripted upstream gave to one message it received. *)
+Definition opts_answered (scripts : list (list rtmpl)) (s : N * msg) : list eopt :=
+  match ups_of scripts (fst s) (snd s) with
+  | Some r => match find_opt (m_extra r) with Some o => o_opts o | None => [] end
+  | None => []
+  end.
+
 (** The reply: exactly one OPT iff the client sent one, DO mirrored, fresh;
     every option was sent by an upstream and a plugin forwards its code. *)
-Definition reply_opt_ok (ws : list wdesc) (scripts : list (list rtmpl)) (q r : msg) : bool :=
+(** ... and all of them come from ONE upstream reply given while this query
+    was handled (the one that was served): options of other upstream replies —
+    of a reference query, of the losing branch of a fallback — are nobody's to
+    forward to this client. *)
+Definition reply_opt_ok (ws : list wdesc) (scripts : list (list rtmpl)) (seen : list (N * msg)) (q r : msg) : bool :=
   no_opt (m_answer r) && no_opt (m_ns r)
   && match client_opt q, opts_of (m_extra r) with
      | None, [] => true
      | Some co, [o] =>
        Bool.eqb (o_do o) (o_do co) && (o_udp o =? edns0_size) && (o_ver o =? 0)
        && forallb (fun e => mem_eopt e (opts_upstream scripts) && forwards_code ws (fst e)) (o_opts o)
+       && match o_opts o with
+          | [] => true
+          | es => existsb (fun s => forallb (fun e => mem_eopt e (opts_answered scripts s)) es) seen
+          end
      | _, _ => false
      end.
 
@@ -341,7 +423,7 @@ Definition spec_query (ws : list wdesc) (scripts : list (list rtmpl)) (o : qobs)
     forallb (fun s => upstream_msg_ok ws q (snd s)) seen
     && chain_ok chain
     && match reply with
-       | Some r => reply_opt_ok ws scripts q r
+       | Some r => reply_opt_ok ws scripts seen q r
        | None => true
        end
   end.
@@ -381,6 +463,20 @@ Definition spec15 (c : case) : bool :=
   match c with
   | CRun xs ws scripts prog qs => forallb (spec_query ws scripts) qs
   | CFun op arg m out aux => spec_fun op m out aux
+  | CCopy q0 pre on_copy es_resp es_q ttl m2 before orig copy =>
+    (* the one that was not written to is what it was; the other has the appended options *)
+    let untouched := if on_copy then orig else copy in
+    let touched := if on_copy then copy else orig in
+    cobs_eqb untouched before
+    && match before, touched with
+       | CObs _ co _ ro _, CObs _ co' _ ro' _ =>
+         option_eqb opt_eqb co co'
+         && match ro, ro' with
+            | Some a, Some b => list_eqb eopt_eqb (o_opts b) (o_opts a ++ es_resp)
+            | None, None => true
+            | _, _ => false
+            end
+       end
   end.
 Definition spec := spec15.
 
@@ -402,5 +498,7 @@ Definition nontrivial15 (c : case) : bool :=
                          | _ => false
                          end) qs
   | CFun op arg m out aux => negb (no_opt (all_rrs m))
+  | CCopy q0 pre on_copy es_resp es_q ttl m2 before orig copy =>
+    match before with CObs _ _ _ (Some _) _ => (0 <? length es_resp)%nat | _ => false end
   end.
 Definition nontrivial := nontrivial15.
